@@ -1,10 +1,18 @@
 """C05 - reactions conserve mass and atoms and convert exactly X of the reactant."""
+from harness.props import c06
 from harness.props import reaction_common as rc
 
 
 def run(ctx):
-    return rc.run(ctx, 'C05', rc.APPLY, rc.SHAPE + ['set_X', 'mul', 'add'])
+    level, cov, assume = rc.run(ctx, 'C05', rc.APPLY, rc.SHAPE + ['set_X', 'mul', 'add'])
+    # phase-tagged reactions on multi-phase streams (ReactEnergy.tla): infeasible conversions must be refused
+    cov['phase_tagged_feasibility'] = c06.tagged_feasibility(ctx)
+    assume = assume + ['phase-tagged reactions on multi-phase streams are exercised through ReactEnergy.tla (synthetic chemicals): material and '
+                       'energy clauses are reported by C06, the refusal of infeasible conversions by C05']
+    return level, cov, assume
 
 
 def replay(ctx, data):
+    if ((data.get('replay') or {}).get('kind')) == 'seq' and 'hf' in ((data.get('replay') or {}).get('init') or {}):
+        return c06.replay(ctx, data)
     return rc.replay(ctx, data, 'C05')
